@@ -42,6 +42,7 @@ def dispatch (line : String) : Verdict :=
   | "C11" :: args => handVerdict "C11" args r
   | "C01" :: "e2e" :: rest => c02 ("e2e" :: rest) r
   | "C01" :: args => handVerdict "C01" args r
+  | "C13" :: "hist" :: args => c13hist ("hist" :: args) r
   | "C13" :: args => c13 args r
   | "C14" :: "hand" :: args => handVerdict "C14" ("hand" :: args) r
   | "C14" :: "stats" :: args => handVerdict "C14" ("stats" :: args) r
